@@ -285,7 +285,7 @@ CLAIMS = {
 
 # necessary-condition rules added during the validation rounds (DESIGN.md 5.A, second table)
 ADDED = {
-    "C01": "Also: reference summaries of the stable sort and the rule slices (SORTSL) and the frozen dependence order "
+    "C01": "Also: the grammar the table is built from is the grammar the user wrote (GAPI2, NAMEFILL, TERMAPI: constructors, rule operators, ids, symbol lookup); reference summaries of the stable sort and the rule slices (SORTSL) and the frozen dependence order "
            "of the statements of the table construction (DEPORD-T); symbol lookup (REJ-2) and bitset primitives (BITSET).",
     "C02": "Also: the three buffers' get_view (BUF); no user functor is copied anywhere on the parse path (FCOPY), the fixed-capacity vector primitives "
            "match their reference summaries (CVEC), dependent statements of the driver keep their order (DEPORD), the "
@@ -303,21 +303,21 @@ ADDED = {
            "be computed for this column, not carried from another one.",
     "C12": "Also: the size analyser and the builder read a pattern with the same parser and options (REJ-4).",
     "C19": "The type-level witness is decided in a pre-phase, before the witness grammars are extracted.",
-    "C08": "Also: the fixed-capacity stack accounting for the recovery path (CAP-S, with its recorded finding) and the "
+    "C08": "Also: which symbol is the error symbol (NAMEFILL, TERMAPI), the recovery-mode flag primitives (GAPI); the fixed-capacity stack accounting for the recovery path (CAP-S, with its recorded finding) and the "
            "dependence order of the driver's statements (DEPORD); table rules as necessary conditions.",
     "C09": "Also: the names printed come from the term getters (TERMAPI), lengths and line/column counters do not wrap "
            "(WIDTH), white-space and matcher rules (WS, MATCH) and the table rules as necessary conditions.",
     "C10": "Also: line/column and lexeme-length carriers are wide enough (WIDTH) and position updates keep their order "
            "relative to the iterator advances (DEPORD).",
-    "C13": "Also CTX-T: on the template arguments of every instantiation, init_nth_reductor<Nr, RC, F> stores "
+    "C13": "Also RULE-T (type-level witness of the rule operators, pre-phase), OVL (the convenience overloads forward the context) and CTX-T: on the template arguments of every instantiation, init_nth_reductor<Nr, RC, F> stores "
            "&reduce_value<Nr, RC, F>, which calls reduce_value_impl<RC, F> (including a contextual functor that could "
            "also be called without the context).",
-    "C15": "Also IMM-10: rules, terms and nterms own their members in every instantiation (no reference members; witness "
+    "C15": "Also RULE-T (the functor is stored by value whatever the argument's category / constness; type-level, pre-phase) and IMM-10: rules, terms and nterms own their members in every instantiation (no reference members; witness "
            "with lvalue functors), and the library's own functors move only from rvalues (HLP-T).",
-    "C16": "Also: the name table of the trace is indexed through char_to_idx (CHARIDX), every path of get_current_term that "
+    "C16": "Also: NAMEFILL (every printed name is filled in), OVL (stream-less / option-less overloads hand everything else on unchanged); the name table of the trace is indexed through char_to_idx (CHARIDX), every path of get_current_term that "
            "produces a term announces it exactly once after storing it (TRACE-R), no stateful stream manipulator is inserted "
            "into the caller's stream (EFF-V5).",
-    "C17": "Also: reference summaries of the pattern lexer / character decoding and of the term getters (REGEXFE, TERMAPI).",
+    "C17": "Also: REGEXGRAM (the pattern grammar object itself as a reference: terms, nonterminals, rules, functors), NAMEFILL / GAPI2 (tables, constructors), reference summaries of the pattern lexer / character decoding and of the term getters (REGEXFE, TERMAPI).",
     "C18": "Also: WIDTH over the returned length, TERMAPI / DEFARG for custom_term, BUF, white-space and capacity rules.",
 }
 
